@@ -66,7 +66,7 @@ SPEC = dict(
           "then drains the change. After every event the status vector, the set of live tombs, Change.Status/IsReady/"
           "ReadyTime/Err and the handler starts of that event (with the prerequisite statuses seen by the handler when it "
           "started, and an exact-instant check from the task-status-changed hook) are recorded; the Coq model replays the "
-          "same event list. Non-trivial = a history in which some handler started with a non-empty prerequisite list."),
+          "same event list. A tenth of the histories are the delayed-retry family: 2-4 independent tasks answering Retry{After: 1/2/3 min}, the clock advancing in 20 s steps with an Ensure fixpoint after every step. Non-trivial = a history in which some handler started with a non-empty prerequisite list."),
     exhaustive=dict(quick=False, thorough=False),
     trusted_base=[
         "hand-written model coq/models/TaskEngine.v of overlord/state (taskrunner.go run/Ensure/tryUndo/mustWait, change.go Status/abortLanes/abortTasks/detectChangeReady, task.go SetStatus/SetToWait/At), tied by the differential run (harness/overlay/overlord/state/zz_verif_c01_test.go)",
